@@ -146,6 +146,7 @@ func runC17(p *Prog, r *Report, tier string) {
 		}
 	}
 
+	checkInfoElementImmutable(p, r, "R-OWNER.info-element")
 	// (2) data reader
 	dds := p.Fn("(*pkg/collector.CollectingProcess).decodeDataSet")
 	if dds == nil {
